@@ -629,3 +629,38 @@ Proof.
     apply factory_execute_keeps_params in E. exact E. }
   rewrite E. exact IH.
 Qed.
+
+(* ---------------------------------------------------------------- statement-shaped corollaries *)
+Theorem admin_op_kinds o :
+  admin_op o = true <->
+  match o with
+  | OMint _ _ _ _ | OPurge | OShuffle _ => False
+  | _ => True
+  end.
+Proof. destruct o; cbn; intuition discriminate. Qed.
+
+Theorem wl_changes_only_for_admins w s sender :
+  mem sender (w_admins s) = false ->
+  (forall k, k <> WIncreaseMemberLimit -> wl_step w s sender (WOp k) = Err) /\
+  (forall l, wl_step w s sender (WUpdateAdmins l) = Err) /\
+  wl_step w s sender WFreeze = Err.
+Proof.
+  intros H. destruct (wl_admin_only w s sender H) as (A & B & C).
+  split; [ | exact (conj B C) ]. intros k Hk. apply A. destruct k; try reflexivity. contradiction Hk. reflexivity.
+Qed.
+
+Theorem splits_admin_changes_only_by_admin s sender m s' :
+  (forall n, sp_admin s <> Some sender -> splits_step s sender (SUpdateAdmin n) = Err) /\
+  (splits_step s sender m = Ok s' ->
+   sp_members s' = sp_members s /\
+   (sp_admin s' <> sp_admin s -> sp_admin s = Some sender /\ exists n, m = SUpdateAdmin n /\ sp_admin s' = n)).
+Proof.
+  split; [ intros n H; exact (splits_update_admin_auth s sender n H) | exact (splits_step_frame s sender m s') ].
+Qed.
+
+Theorem coll_freezes_forever calls k s :
+  (c_frozen s = true ->
+     match run_auth (AColl k s) calls with AColl _ s' => c_frozen s' = true | _ => False end) /\
+  (c_meta_frozen s = true ->
+     match run_auth (AColl k s) calls with AColl _ s' => c_meta_frozen s' = true | _ => False end).
+Proof. exact (conj (coll_info_frozen_forever calls k s) (coll_metadata_frozen_forever calls k s)). Qed.
